@@ -37,6 +37,7 @@ def tests_ok(out):
 
 def do_import():
     src, prop = sys.argv[2], sys.argv[3]
+    tag = sys.argv[4] if len(sys.argv) > 4 else ""
     ensure_wt()
     for n in sorted(os.listdir(src)):
         d = os.path.join(src, n)
@@ -63,7 +64,7 @@ def do_import():
         print(prop, n, "tests_green_with_change=", ok_tests, "demo_fails_with=", fails_with, "demo_passes_without=", passes_without, "->", "KEEP" if verdict else "DROP", flush=True)
         if not verdict:
             continue
-        dst = os.path.join(SEEDED, f"{prop}-{n}")
+        dst = os.path.join(SEEDED, f"{prop}-{tag}{n}")
         os.makedirs(dst, exist_ok=True)
         shutil.copy(os.path.join(d, "patch.diff"), dst)
         shutil.copy(os.path.join(d, "demo.rs"), dst)
@@ -72,7 +73,7 @@ def do_import():
         except Exception:
             meta = {}
         meta["property"] = prop
-        meta["origin"] = "independent sub-agent given only the property text and a scratch worktree"
+        meta["origin"] = "independent sub-agent given only the property text and a scratch worktree" + (" (second round: asked for hard-to-trigger defects needing a conjunction of >= 3 conditions or an unusual scale)" if tag else "")
         meta["confirmed_by_me"] = {
             "where": "scratch worktree of /repo HEAD under /tmp (removed afterwards)",
             "ran": ["git apply patch.diff", "cargo test --offline (3 times: all 65 tests green)", "cargo test --offline --test demo (fails with the change)", "git checkout -- src; cargo test --offline --test demo (passes)"],
